@@ -75,6 +75,16 @@ def canon(case):
     return json.dumps(case, sort_keys=True, default=jdefault)
 
 
+def say(*parts):
+    """The driver's own output: never fails on a stdout that cannot encode a character (the variant run uses ASCII)."""
+    text = ' '.join(str(p) for p in parts) + '\n'
+    enc = getattr(sys.stdout, 'encoding', None) or 'utf-8'
+    try:
+        sys.stdout.write(text.encode(enc, 'backslashreplace').decode(enc))
+    except Exception:  # noqa: BLE001
+        sys.stdout.write(text.encode('ascii', 'backslashreplace').decode('ascii'))
+
+
 def fingerprint(case):
     return hashlib.blake2b(canon(case).encode(), digest_size=8).digest()
 
@@ -384,13 +394,13 @@ class Ctx(Recorder):
         with open(os.path.join(VERIF, 'evidence', name), 'w') as f:
             json.dump(ev, f, indent=1, default=jdefault)
         for ln in self.known_lines:
-            print(ln)
-        print(f'[{self.pid}] tier={self.tier} seed={self.seed} evaluations={self.evals} '
+            say(ln)
+        say(f'[{self.pid}] tier={self.tier} seed={self.seed} evaluations={self.evals} '
               f'distinct_nontrivial={nt} violations={len(self.violations)} wall={self.elapsed():.1f}s')
         for rel, fs in lines:
             for f in fs[:3]:
-                print(f'  failure clause={f["clause"]} sig={f["sig"]}: {f["detail"][:300]}')
-            print(f'VIOLATION property={self.pid} replay={rel}')
+                say(f'  failure clause={f["clause"]} sig={f["sig"]}: {f["detail"][:300]}')
+            say(f'VIOLATION property={self.pid} replay={rel}')
         sys.stdout.flush()
         return 1 if lines else 0
 
